@@ -59,6 +59,37 @@ pub fn handshake(target: &Target, sni: &str, protos: &[String], timeout: Duratio
 
 /// as `handshake`; `max12`: the client offers TLS 1.2 at most (otherwise everything the local OpenSSL offers, 1.3 included)
 pub fn handshake_v(target: &Target, sni: &str, protos: &[String], timeout: Duration, max12: bool) -> Result<Handshake, String> {
+	handshake_slow(target, sni, protos, timeout, max12, 0)
+}
+
+/// A peer that is slow but legal: every write of the client is held back `delay_ms` (a validator a long round trip away).
+#[derive(Debug)]
+struct Slow<S> {
+	inner: S,
+	delay: Duration,
+}
+
+impl<S: Read> Read for Slow<S> {
+	fn read(&mut self, b: &mut [u8]) -> std::io::Result<usize> {
+		self.inner.read(b)
+	}
+}
+
+impl<S: Write> Write for Slow<S> {
+	fn write(&mut self, b: &[u8]) -> std::io::Result<usize> {
+		if !self.delay.is_zero() {
+			std::thread::sleep(self.delay);
+		}
+		self.inner.write(b)
+	}
+	fn flush(&mut self) -> std::io::Result<()> {
+		self.inner.flush()
+	}
+}
+
+/// as `handshake_v`; every flight of the client is sent `delay_ms` late
+pub fn handshake_slow(target: &Target, sni: &str, protos: &[String], timeout: Duration, max12: bool, delay_ms: u64) -> Result<Handshake, String> {
+	let delay = Duration::from_millis(delay_ms);
 	let c = connector(protos, max12)?;
 	let mut cfg = c.configure().map_err(|e| e.to_string())?;
 	cfg.set_verify_hostname(false);
@@ -81,13 +112,13 @@ pub fn handshake_v(target: &Target, sni: &str, protos: &[String], timeout: Durat
 			let s = conn.ok_or(last)?;
 			let _ = s.set_read_timeout(Some(timeout));
 			let _ = s.set_write_timeout(Some(timeout));
-			finish(cfg.connect(sni, s))
+			finish(cfg.connect(sni, Slow { inner: s, delay }))
 		}
 		Target::Unix(path) => {
 			let s = UnixStream::connect(path).map_err(|e| format!("connect: {e}"))?;
 			let _ = s.set_read_timeout(Some(timeout));
 			let _ = s.set_write_timeout(Some(timeout));
-			finish(cfg.connect(sni, s))
+			finish(cfg.connect(sni, Slow { inner: s, delay }))
 		}
 	}
 }
